@@ -113,3 +113,18 @@ func cmdBundleLoad(args []string) int {
 	}
 	return 0
 }
+
+func init() { commands["getfiles"] = cmdGetFiles }
+
+// getfiles <dir> <out>: graph.getFiles(dir) — the walked .java paths in walk order, or the error
+func cmdGetFiles(args []string) int {
+	out, _ := os.Create(args[1])
+	defer out.Close()
+	files, err := graphGetFiles(args[0])
+	if err != nil {
+		fmt.Fprintf(out, "ERROR %s\n", hx(err.Error()))
+		return 0
+	}
+	fmt.Fprintf(out, "FILES %s\n", hxl(files))
+	return 0
+}
